@@ -249,9 +249,12 @@ impl Interpreter {
 
                 let len = values.borrow().len();
                 for i in 0..len {
+                    // the body may have shortened the list: stop when it is exhausted
+                    let Some(item) = values.borrow().get(i).cloned() else {
+                        break;
+                    };
                     // inserting temporary value into env
-                    self.venv
-                        .define(element.clone(), values.borrow()[i].clone());
+                    self.venv.define(element.clone(), item);
                     // execute body
 
                     
@@ -275,7 +278,10 @@ impl Interpreter {
                     }
 
                     // get temp val out and change it in vec
-                    (*values.borrow_mut())[i] = self.venv.remove(element.clone()).unwrap().0;
+                    let item = self.venv.remove(element.clone()).unwrap().0;
+                    if let Some(slot) = values.borrow_mut().get_mut(i) {
+                        *slot = item;
+                    }
                 }
 
                 assert!(self.loop_stack.pop().is_some());
